@@ -96,3 +96,19 @@ func (w *verifRW) WriteHeader(code int) {
 func verifReq(method, query string) *http.Request {
 	return &http.Request{Method: method, URL: &url.URL{Path: "/engine.io/", RawQuery: query}, ProtoMajor: 1, ProtoMinor: 1, Header: http.Header{}}
 }
+
+// numbered MESSAGE packets for the upgrade harnesses
+func verifNumbered(n byte) *parser.Packet {
+	return &parser.Packet{Type: parser.PacketTypeMessage, Data: []byte{'m', n}}
+}
+
+func verifCountNumbered(ps []*parser.Packet, n byte) int {
+	c := 0
+	for _, p := range ps {
+		if p.Type == parser.PacketTypeMessage && len(p.Data) == 2 && p.Data[0] == 'm' && p.Data[1] == n {
+			c++
+		}
+	}
+	return c
+}
+
